@@ -1147,6 +1147,52 @@ theorem cap_centroid_offsets (r : ℝ) (hr : 0 < r) :
   rw [e1, e2]
   constructor <;> field_simp <;> ring
 
+/-- **Capsule (3-D), as a solid of revolution** about its axis (axis coordinate `y`, centre at `0`, `c = h/2`,
+`h = |b − a|`): disc slices of squared radius `r²` on the cylinder `|y| ≤ c` and `r² − (y ∓ c)²` on the two hemispherical
+caps.  `from_capsule` has the mass `ρ ∫ π ρ(y)²`, the axial inertia `ρ ∫ (π/2) ρ(y)⁴` and the transverse inertia
+`ρ ∫ (π/4 ρ(y)⁴ + π ρ(y)² y²)` of that solid — in particular the cap offset `3r/8` and the `h²/4 + 3hr/8` shift in the
+code are the exact parallel-axis terms. -/
+theorem capsule3_is_solid_of_revolution (ρ r : ℝ) (a b : V3 ℝ) (hρ : 0 ≤ ρ) (hr : 0 ≤ r) :
+    letI := fieldNum ℝ Real.sqrt
+    let h := (b.sub a).norm
+    let c := h / 2
+    let x := fromCapsule3 Real.pi ρ a b r
+    x.2.1⁻¹ = ρ * ((∫ y in (-c - r)..(-c), Real.pi * (r ^ 2 - (y + c) ^ 2)) + (∫ _y in (-c)..c, Real.pi * r ^ 2)
+                    + ∫ y in c..(c + r), Real.pi * (r ^ 2 - (y - c) ^ 2)) ∧
+    (x.2.2.y * x.2.2.y)⁻¹ = ρ * ((∫ y in (-c - r)..(-c), Real.pi / 2 * (r ^ 2 - (y + c) ^ 2) ^ 2) + (∫ _y in (-c)..c, Real.pi / 2 * r ^ 4)
+                    + ∫ y in c..(c + r), Real.pi / 2 * (r ^ 2 - (y - c) ^ 2) ^ 2) ∧
+    (x.2.2.x * x.2.2.x)⁻¹ = ρ * ((∫ y in (-c - r)..(-c), (Real.pi / 4 * (r ^ 2 - (y + c) ^ 2) ^ 2 + Real.pi * (r ^ 2 - (y + c) ^ 2) * y ^ 2))
+                    + (∫ y in (-c)..c, (Real.pi / 4 * r ^ 4 + Real.pi * r ^ 2 * y ^ 2))
+                    + ∫ y in c..(c + r), (Real.pi / 4 * (r ^ 2 - (y - c) ^ 2) ^ 2 + Real.pi * (r ^ 2 - (y - c) ^ 2) * y ^ 2)) := by
+  intro h c x
+  obtain ⟨_, b1, b2, b3, _⟩ := capsule3_spec Real.sqrt real_lawfulSqrt Real.pi ρ a b r Real.pi_pos.le hρ hr
+  rw [b1, b2, b3]
+  rw [show @V3.norm ℝ (fieldNum ℝ Real.sqrt) (@V3.sub ℝ (fieldNum ℝ Real.sqrt) b a) = 2 * c from by simp only [c, h]; ring]
+  clear_value c
+  have m1 : (∫ y in (-c - r)..(-c), Real.pi * (r ^ 2 - (y + c) ^ 2)) = _ :=
+    integral_eq_poly4 _ (-c - r) (-c) (Real.pi * (r ^ 2 - c ^ 2)) (-2 * Real.pi * c) (-Real.pi) 0 0 (by intro y; ring)
+  have m3 : (∫ y in c..(c + r), Real.pi * (r ^ 2 - (y - c) ^ 2)) = _ :=
+    integral_eq_poly4 _ c (c + r) (Real.pi * (r ^ 2 - c ^ 2)) (2 * Real.pi * c) (-Real.pi) 0 0 (by intro y; ring)
+  have a1 : (∫ y in (-c - r)..(-c), Real.pi / 2 * (r ^ 2 - (y + c) ^ 2) ^ 2) = _ :=
+    integral_eq_poly4 _ (-c - r) (-c) (Real.pi / 2 * (r ^ 2 - c ^ 2) ^ 2) (Real.pi / 2 * (2 * (r ^ 2 - c ^ 2) * (-2 * c)))
+      (Real.pi / 2 * (4 * c ^ 2 - 2 * (r ^ 2 - c ^ 2))) (Real.pi / 2 * (4 * c)) (Real.pi / 2) (by intro y; ring)
+  have a3 : (∫ y in c..(c + r), Real.pi / 2 * (r ^ 2 - (y - c) ^ 2) ^ 2) = _ :=
+    integral_eq_poly4 _ c (c + r) (Real.pi / 2 * (r ^ 2 - c ^ 2) ^ 2) (Real.pi / 2 * (2 * (r ^ 2 - c ^ 2) * (2 * c)))
+      (Real.pi / 2 * (4 * c ^ 2 - 2 * (r ^ 2 - c ^ 2))) (Real.pi / 2 * (-4 * c)) (Real.pi / 2) (by intro y; ring)
+  have t1 : (∫ y in (-c - r)..(-c), (Real.pi / 4 * (r ^ 2 - (y + c) ^ 2) ^ 2 + Real.pi * (r ^ 2 - (y + c) ^ 2) * y ^ 2)) = _ :=
+    integral_eq_poly4 _ (-c - r) (-c) (Real.pi / 4 * (r ^ 2 - c ^ 2) ^ 2) (Real.pi / 4 * (2 * (r ^ 2 - c ^ 2) * (-2 * c)))
+      (Real.pi / 4 * (4 * c ^ 2 - 2 * (r ^ 2 - c ^ 2)) + Real.pi * (r ^ 2 - c ^ 2)) (Real.pi / 4 * (4 * c) + Real.pi * (-2 * c))
+      (Real.pi / 4 - Real.pi) (by intro y; ring)
+  have t2 : (∫ y in (-c)..c, (Real.pi / 4 * r ^ 4 + Real.pi * r ^ 2 * y ^ 2)) = _ :=
+    integral_eq_poly4 _ (-c) c (Real.pi / 4 * r ^ 4) 0 (Real.pi * r ^ 2) 0 0 (by intro y; ring)
+  have t3 : (∫ y in c..(c + r), (Real.pi / 4 * (r ^ 2 - (y - c) ^ 2) ^ 2 + Real.pi * (r ^ 2 - (y - c) ^ 2) * y ^ 2)) = _ :=
+    integral_eq_poly4 _ c (c + r) (Real.pi / 4 * (r ^ 2 - c ^ 2) ^ 2) (Real.pi / 4 * (2 * (r ^ 2 - c ^ 2) * (2 * c)))
+      (Real.pi / 4 * (4 * c ^ 2 - 2 * (r ^ 2 - c ^ 2)) + Real.pi * (r ^ 2 - c ^ 2)) (Real.pi / 4 * (-4 * c) + Real.pi * (2 * c))
+      (Real.pi / 4 - Real.pi) (by intro y; ring)
+  rw [m1, m3, a1, a3, t1, t2, t3]
+  simp only [integral_const, smul_eq_mul]
+  refine ⟨by ring, by ring, by ring⟩
+
 end Integrals
 
 /-! ## Non-vacuity: the hypotheses of the theorems above are satisfiable on concrete non-trivial inputs (over ℝ, where
